@@ -53,6 +53,7 @@ type For struct {
 	Counter string // "" = no counter
 	Count   Expr
 	Body    []Item
+	Asserts []Expr // ;assert lines written inside the body (closed expressions: no counter, no labels): they count when the block is expanded at least once
 }
 
 type Org struct{ E Expr }
@@ -64,14 +65,14 @@ func (*Org) isItem()   {}
 
 // Prog is an abstract program.
 type Prog struct {
-	Cfg      Config
-	Items    []Item
-	EndArg   Expr // nil = plain END
+	Cfg       Config
+	Items     []Item
+	EndArg    Expr     // nil = plain END
 	EndLabels []string // labels written in front of END: they denote the address after the last instruction
-	Name     string
-	Author   string
-	Strategy []string // one entry per ;strategy line
-	Asserts  []Expr   // ;assert lines (all must be non-zero for the program to be accepted)
+	Name      string
+	Author    string
+	Strategy  []string // one entry per ;strategy line
+	Asserts   []Expr   // ;assert lines (all must be non-zero for the program to be accepted)
 }
 
 // Meaning is what a program denotes.
@@ -149,6 +150,7 @@ type UnrollStats struct {
 func Unroll(p *Prog) (*Prog, UnrollStats, error) {
 	var st UnrollStats
 	equ := map[string][]Tok{}
+	var bodyAsserts []Expr
 	var expand func(items []Item, depth int) ([]Item, error)
 	expand = func(items []Item, depth int) ([]Item, error) {
 		var out []Item
@@ -175,6 +177,8 @@ func Unroll(p *Prog) (*Prog, UnrollStats, error) {
 				n := int(v.Int64())
 				if n == 0 {
 					st.ZeroCounts++
+				} else {
+					bodyAsserts = append(bodyAsserts, x.Asserts...)
 				}
 				var emitted []Item
 				for i := 1; i <= n; i++ {
@@ -233,6 +237,9 @@ func Unroll(p *Prog) (*Prog, UnrollStats, error) {
 	}
 	q := *p
 	q.Items = items
+	if len(bodyAsserts) > 0 {
+		q.Asserts = append(append([]Expr{}, p.Asserts...), bodyAsserts...)
+	}
 	return &q, st, nil
 }
 
@@ -383,7 +390,7 @@ func (p *Prog) Meaning() (*Meaning, error) {
 			return nil, false
 		}}
 	}
-	for _, a := range p.Asserts {
+	for _, a := range flat.Asserts {
 		v, err := envAt(0).Eval(Tokens(a))
 		if err != nil {
 			return nil, err
